@@ -56,6 +56,28 @@ def _lower_names(res):
     return re.sub(r"(E \w+ )([0-9a-f]+) ", low, res)
 
 
+def equal(g, m, attrs):
+    """same tree; every outcome equal to the model's or one of the admissible alternatives the model
+    lists for that evaluation (alt=<index>:<outcome>~<outcome>;… — an error about ANY offending operand)"""
+    if g == m:
+        return True
+    alt = attrs.get("alt")
+    if not alt or " " not in g or " " not in m:
+        return False
+    gt, go = g.split(" ", 1)
+    mt, mo = m.split(" ", 1)
+    if gt != mt:
+        return False
+    gos, mos = go.split("|"), mo.split("|")
+    if len(gos) != len(mos):
+        return False
+    alts = {}
+    for part in alt.split(";"):
+        i, _, rest = part.partition(":")
+        alts[int(i)] = rest.split("~")
+    return all(x == y or x in alts.get(i, ()) for i, (x, y) in enumerate(zip(gos, mos)))
+
+
 def post(ctx, cases, gores, model):
     # layout / keyword-spelling variants against their single-blank writing: the REAL code alone must
     # give the same tree and outcome for every member of a group (independent of model and of both lexers)
@@ -117,6 +139,7 @@ SPEC = dict(
     extract=extract,
     search=search,
     post=post,
+    equal=equal,
     rule=("cases = one-expression programs (some `r := <expr>`): every binary operator on every pair of literal kinds "
           "{num,str,bool,null,list} x several values, every prefix operator on every operand of the universe, all 19x19 operator "
           "pairs x {no brackets, left, right} x operand triples over {num,str,bool,null,var,list}, all 3x19 prefix/binary forms, "
